@@ -230,7 +230,7 @@ func (c *C19Case) Run() (res stat.Result) {
 							continue
 						}
 						if lit == "-0" && knownListed("C19-minus-zero-integer-literal") && c19LeafDiffs(jv.Elem(), sv.Elem(), func(x, y reflect.Value) bool {
-							return x.Float() == 0 && y.Float() == 0 && math.Signbit(x.Float()) && !math.Signbit(y.Float())
+							return isFloatKind(x) && x.Float() == 0 && y.Float() == 0 && math.Signbit(x.Float()) && !math.Signbit(y.Float())
 						}) {
 							res.Known = append(res.Known, "C19-minus-zero-integer-literal")
 							continue
@@ -481,7 +481,13 @@ func c19LeafDiffs(a, b reflect.Value, excuse func(x, y reflect.Value) bool) bool
 	switch a.Kind() {
 	case reflect.Float32, reflect.Float64:
 		return math.Float64bits(a.Float()) == math.Float64bits(b.Float()) || excuse(a, b)
+	case reflect.String:
+		return a.String() == b.String() || excuse(a, b)
 	case reflect.Slice, reflect.Array:
+		if a.Kind() == reflect.Slice && a.Type().Elem().Kind() == reflect.Uint8 {
+			// byte slices are leaves
+			return (a.IsNil() == b.IsNil() && string(a.Bytes()) == string(b.Bytes())) || excuse(a, b)
+		}
 		if a.Len() != b.Len() {
 			return false
 		}
@@ -511,7 +517,7 @@ func c19LeafDiffs(a, b reflect.Value, excuse func(x, y reflect.Value) bool) bool
 		return true
 	case reflect.Ptr, reflect.Interface:
 		if a.IsNil() || b.IsNil() {
-			return a.IsNil() == b.IsNil()
+			return a.IsNil() == b.IsNil() || excuse(a, b)
 		}
 		return c19LeafDiffs(a.Elem(), b.Elem(), excuse)
 	default:
@@ -527,4 +533,8 @@ func c19Classify(dec string, ty reflect.Type, doc, lit string, je, se error, dif
 		}
 	}
 	return ""
+}
+
+func isFloatKind(v reflect.Value) bool {
+	return v.Kind() == reflect.Float32 || v.Kind() == reflect.Float64
 }
